@@ -563,7 +563,39 @@ pub fn run_c08(ctx: &Ctx) -> i32 {
         let si = StreamInfo::new(gen::pick_rate(&mut rng), rng.urange(1, 8), *rng.pick(&gen::WIDTHS)).unwrap();
         let md2: MetadataBlockData = si.into();
         check_bits(ctx, "MetadataBlockData", &md2, out, &rp);
+        // a whole stream carrying 1-3 extra metadata blocks (encoder output never has them), as
+        // constructed and as the parser returns it
+        if let Ok(mut stream) = flacenc::component::Stream::new(44100, 2, 16) {
+            for _ in 0..1 + rng.usize_below(3) {
+                let l = *rng.pick(&[0usize, 1, 5, 33, 300]);
+                let d: Vec<u8> = (0..l).map(|_| rng.next_u64() as u8).collect();
+                if let Ok(b) = MetadataBlockData::new_unknown(rng.urange(1, 126) as u8, &d) {
+                    stream.add_metadata_block(b);
+                }
+            }
+            check_bits(ctx, "Stream(with metadata)", &stream, out, &rp);
+            if let Ok(bytes) = enc::to_bytes(&stream) {
+                type NomErr<'a> = nom::error::Error<&'a [u8]>;
+                if let Ok(Ok((_, s2))) = catch(|| flacenc::component::parser::stream::<NomErr<'_>>(&bytes)) {
+                    check_bits(ctx, "Stream(with metadata, parsed)", &s2, out, &rp);
+                }
+            }
+        }
         out.distinct.insert(0x77_0000 + idx);
+    });
+    // (g) blocks whose Rice quotient sum is k * 2^32 + delta (see C09 'wrap32'): the encoder must
+    // not keep such a candidate; if it does, the frame's count and its written bits disagree
+    run_cases(ctx, "wrap32", ctx.tier.pick(4, 24), &mut out, |idx, out| {
+        let mut rng = Rng::for_case(ctx.seed, "C08.wrap32", idx);
+        let Some(case) = crate::mon_a::wrap32_case(&mut rng, idx) else { return };
+        match observe(&case) {
+            Ok(obs) => {
+                out.count("sub_wrap32");
+                out.distinct.insert(case.key());
+                oracle_c08_stream(ctx, "wrap32", idx, &case.describe(), &obs.stream, out);
+            }
+            Err(e) => report_obs_err(ctx, "wrap32", idx, &case, &e, out),
+        }
     });
     let simd = sched::cov_count("cov.residual.simdsum");
     let scalar = sched::cov_count("cov.residual.scalarsum");
